@@ -31,8 +31,10 @@ class StrFn:
                     break
 
     def leaf(self, n):
-        n = n.strip()
+        n = std_unwrap(n)
         k = n.kind
+        if k in ("BinaryOperator",) and n.op in ("+", "-", "*"):
+            return to_poly(n, self.leaf)
         if k == "UnaryExprOrTypeTraitExpr":
             if n.get("argt") == self.chart:
                 return Poly.sym("S")
@@ -382,14 +384,24 @@ def check_views(ctx, unit):
             if f.name in ("starts_with", "ends_with"):
                 calls = [n for n in f.events() if n.is_call() and n.callee and n.callee["n"] == "sub_string"]
                 ok = bool(calls)
+                op_ = f.params()[0]["d"]
                 for c in calls:
                     g = False
                     for cond, truth in flow.facts_at(f, c.id):
-                        cs = cond.strip()
-                        if cs.kind == "BinaryOperator" and cs.op == ">" and truth is False:
-                            a, b = canon(cs.children[0]), canon(cs.children[1])
-                            if "size(" in a and "other" in a and "size(this)" in b.replace("frg::basic_string_view::", ""):
-                                g = True
+                        rel = flow.fact_relation(cond, truth)
+                        if rel is None or rel[1] not in ("<=", "<"):
+                            continue
+                        a, b = std_unwrap(rel[0]), std_unwrap(rel[2])
+                        # other.size() <= this->size()
+                        def is_size_of(x, who):
+                            if not (x.kind == "CXXMemberCallExpr" and x.callee and x.callee["n"] == "size"):
+                                return False
+                            o = std_unwrap(x.child("obj"))
+                            if who == "this":
+                                return o.kind == "CXXThisExpr"
+                            return o.kind == "DeclRefExpr" and o.d["d"] == op_
+                        if is_size_of(a, "other") and is_size_of(b, "this"):
+                            g = True
                     ok = ok and g
                 ctx.inst("E.prefix-suffix-guard", f.sig, ok, f.loc, "sub_string reached only when other.size() > size() is false: %s" % ok, f)
     for rec in recs_of(unit, STR):
